@@ -130,6 +130,13 @@ class _OS:
         self.W_OK, self.R_OK = _os.W_OK, _os.R_OK
 
     def access(self, *a, **k):
+        # a permission check is not an operation of the save; it can be made to answer "no" (read-only
+        # directory / file at that moment) through Layer(deny_access={call index, ...})
+        idx = self._layer.access_calls
+        self._layer.access_calls += 1
+        if self._layer.enabled and idx in self._layer.deny_access:
+            self._layer.denied = True
+            return False
         return _os.access(*a, **k)
 
     def rename(self, src, dst):
@@ -168,8 +175,11 @@ class _OS:
 class Layer:
     """Context manager installing the interposer into mysensors.persistence."""
 
-    def __init__(self, plan=None, record_reads=False, on_op=None):
+    def __init__(self, plan=None, record_reads=False, on_op=None, deny_access=()):
         self.plan = plan or FaultPlan()
+        self.deny_access = set(deny_access)
+        self.access_calls = 0
+        self.denied = False
         self.on_op = on_op  # callable(idx, kind, basename) run right before an operation ("another thread runs now")
         self._in_hook = False
         self.trace = []  # (kind, basename, extra)
